@@ -10,7 +10,7 @@ L1_TRUST = ['L1 model (coq/theories/L1/Model.v): control skeleton hand-written, 
 CORR_L2 = {'kind': 'l2', 'profiles': [prof('fut', (60, 5), (600, 10), extra=['--max-pool', '1']), prof('fut', (40, 5), (400, 10), extra=['--max-pool', '0']), prof('fut', (40, 5), (400, 10), extra=['--min-pool', '2']), prof('susp', (60, 5), (600, 10)), prof('progs:wake_sweep.progs', (0, 8), (0, 60)), prof('progs:fut_extra.progs', (0, 8), (0, 60)), prof('fsync', (60, 5), (600, 10)), prof('progs:cancel.progs', (0, 10), (0, 60)), prof('progs:syncfut_extra.progs', (0, 6), (0, 40)), prof('progs:fsync_pool0.progs', (0, 8), (0, 60)), prof('progs:f6_waiter_takeover.progs', (0, 8), (0, 60)), prof('progs:susp_extra.progs', (0, 8), (0, 60))]}
 CORR_L1 = {'profiles': [prof('corpus', (0, 6), (0, 40)), prof('core', (40, 5), (600, 10)), prof('sync', (30, 5), (400, 10)), prof('try', (30, 5), (400, 10)), prof('pool', (40, 5), (400, 10))]}
 
-L2_TRUST = ['L2 model (coq/theories/L2/Model.v): ONE queue with futures, three runner contexts and in-flight wakes, hand-written; the pool abstracted as runners that may take a scheduled queue (hand-over justified by L1: L-quiet/C10 matching invariant); sync_background reduced to a blocking wait; tied by the generated waker/poll tables and facts and by the wake-position sweeps - no log replay for this layer yet']
+L2_TRUST = ['L2 model (coq/theories/L2/Model.v): ONE queue with futures, three runner contexts, in-flight wakes, the sync_background waiter (kicked flag, claim, take-over) and future_sync (slot job over two oneshot cells), hand-written; the pool abstracted as runners that may take a scheduled queue (hand-over justified by L1: L-quiet/C10 matching invariant); tied by the generated waker/poll/claim tables, the order facts (gen_ffacts = code_ffacts, Inst/Fut_now.v), the replay of logged executions of the real crate on the extracted model (driver/l2/replay_l2.ml: sections with snapshots, harness markers, oneshot events) and the wake-position sweeps']
 
 PROPS = {
     'C01': {
@@ -43,7 +43,7 @@ PROPS = {
         'profiles': [prof('sync', (80, 20), (2000, 80)), prof('core', (40, 10), (800, 40)), prof('pool', (30, 10), (600, 40)), prof('fut', (40, 15), (800, 60), extra=['--max-pool', '1']), prof('progs:fut_extra.progs', (0, 60), (0, 1500)), prof('progs:susp_extra.progs', (0, 60), (0, 1500)), prof('progs:f6_waiter_takeover.progs', (0, 60), (0, 1500))],
         'monitors': ['C04'], 'liveness': True, 'panics': True,
         'trusted_base': L1_TRUST,
-        'assumptions': ['nested sync (called from inside a job of another object, any depth, acyclic object order): L1n (C04n_sync_runs_own_closure, C03n_quiescent_is_complete). C04_full (any pool maximum incl. 0) is proved for layer L1 (operations that do not suspend); sync on a queue suspended on a future: L2 now models the sync_background waiter (kicked flag, claim through the generated t_claim, take-over with the sync-drain frames): C04_sync_returns_L2 - for any program and ANY pool size incl. 0, in a terminal state with all events fired nobody is left inside sync in any of its three modes; C04_needs_waiter_takeover_refuted_L2 = finding F6 (old claim table, witness by vm_compute). Earlier text: L2\'s terminal theorem (pool >= 1) and by the profiles; nested sync from inside jobs is exercised by the profiles, not modelled'],
+        'assumptions': ['nested sync (called from inside a job of another object, any depth, acyclic object order): L1n (C04n_sync_runs_own_closure, C03n_quiescent_is_complete). C04_full (any pool maximum incl. 0) is proved for layer L1 (operations that do not suspend); sync on a queue suspended on a future: L2 now models the sync_background waiter (kicked flag, claim through the generated t_claim, take-over with the sync-drain frames): C04_sync_returns_L2 - for any program and ANY pool size incl. 0, in a terminal state with all events fired nobody is left inside sync in any of its three modes; C04_needs_waiter_takeover_refuted_L2 = finding F6 (old claim table, witness by vm_compute).'],
     },
     'C05': {
         'correspondence': CORR_L1,
@@ -59,7 +59,7 @@ PROPS = {
         'profiles': [prof('sweep:wake_sweep.progs', (0, 3), (0, 30)), prof('fut', (60, 15), (1500, 60)), prof('susp', (30, 10), (600, 40)), prof('progs:fut_extra.progs', (0, 60), (0, 1500)), prof('progs:susp_extra.progs', (0, 60), (0, 1500)), prof('progs:f6_waiter_takeover.progs', (0, 60), (0, 1500)), prof('progs:fsync_pool0.progs', (0, 40), (0, 1000))],
         'monitors': ['C06', 'C03', 'C07', 'C04'], 'liveness': True, 'panics': True,
         'trusted_base': L2_TRUST,
-        'assumptions': ['the no-lost-wake invariant (all three runner contexts, any event timing, stale wakers); terminal theorem with >= 1 pool runner (C06_terminal_partial_L2: in a terminal state with all events fired no operation is suspended and nothing is queued); terminal theorem with ZERO pool runners (C06_zero_pool_L2: caller 0 runs desync / awaited or detached future operations, the other callers only fire events: in a terminal state caller 0 has finished; needs zero_cond of the generated tables: poll always takes an idle or pending queue over). Outside the zero-pool theorem: suspend, sync and poll-then-drop on caller 0 (refuted for suspend: C06_zero_pool_needs_side_condition_refuted) - those are exercised by the pool-0 wake sweeps'],
+        'assumptions': ['the no-lost-wake invariant (all three runner contexts, any event timing, stale wakers); terminal theorem with >= 1 pool runner (C06_terminal_partial_L2: in a terminal state with all events fired no operation is suspended and nothing is queued); terminal theorem with ZERO pool runners (C06_zero_pool_L2: caller 0 runs desync / awaited or detached future operations, the other callers only fire events: in a terminal state caller 0 has finished; needs zero_cond of the generated tables: poll always takes an idle or pending queue over). C06_zero_pool_sync_L2: with zero pool runners a caller that never awaits (desync, sync, .sync(), detach, poll-then-drop, fire) finishes whatever the other callers do. Outside both zero-pool theorems: mixtures of awaiting and non-awaiting calls on one caller, and an awaited suspend (refuted: C06_zero_pool_needs_side_condition_refuted) - exercised by the pool-0 wake sweeps'],
     },
     'C07': {
         'correspondence': CORR_L2,
@@ -75,7 +75,7 @@ PROPS = {
         'correspondence': [CORR_L2, {'kind': 'syncfut', 'profiles': [prof('fsync', (60, 5), (600, 10)), prof('progs:syncfut_extra.progs', (0, 10), (0, 60)), prof('progs:cancel.progs', (0, 10), (0, 60))]}],
         'monitors': ['C08', 'C01', 'C02', 'C05'], 'liveness': True, 'panics': True,
         'trusted_base': ['SyncFut model (coq/theories/SyncFut/Model.v): hand-written; the queue abstracted as one-at-a-time FIFO execution with the slot job and other operations possibly suspended (justified by C01/C02), the queue runner excluded while the polling task drains (justified by the ownership invariant); tied by translator facts, by the replay of logged executions of the real crate on the extracted model (driver/syncfut/replay_syncfut.ml: every oneshot operation, result-cell section and harness marker must be an enabled model step with the same label and poll result, and the final order of observables must equal the model\'s ghost log) and by the run-time oracles'],
-        'assumptions': ['TWO models: SyncFut (abstract one-at-a-time queue, every drop point, zero pool incl.) and since the last round L2 itself (the real queue machinery: OFutSync with the slot job as a queue job, two oneshot cells, SyncFuture::poll step by step): C08_1..C08_5_L2 + refutation for the reversed field order; C08_5_L2 needs >= 1 pool runner (zero pool: SyncFut). terminal-state form of "releases the queue" (no termination measure); a hand-written future that still owns captures after returning Ready would release them outside the slot (Desync::future_sync wraps the job in an async block, so this cannot happen through the safe API)'],
+        'assumptions': ['TWO models: SyncFut (abstract one-at-a-time queue, every drop point, zero pool incl.) and since the last round L2 itself (the real queue machinery: OFutSync with the slot job as a queue job, two oneshot cells, SyncFuture::poll step by step): C08_1..C08_5_L2 + refutation for the reversed field order; the full C08_5_releases_the_queue_L2 needs >= 1 pool runner; for any pool size incl. 0: C08_5_terminal_any_pool_L2 and C08_5_dropping_caller_finishes_L2 (the awaiting caller with zero pool: SyncFut only). terminal-state form of "releases the queue" (no termination measure); a hand-written future that still owns captures after returning Ready would release them outside the slot (Desync::future_sync wraps the job in an async block, so this cannot happen through the safe API)'],
     },
     'C09': {
         'correspondence': CORR_L1,
@@ -98,16 +98,16 @@ PROPS = {
         'coq': ['theories/PipeIn/PropsC11.vo', 'theories/PipeIn/PropsC11_examples.vo', 'theories/Inst/C11_now.vo', 'theories/Inst/Fut_now.vo'],
         'profiles': [prof('pipein', (80, 20), (1500, 60), extra=['--max-steps', '30000']), prof('progs:pipe_yield.progs', (0, 60), (0, 1500), extra=['--max-steps', '30000']), prof('progs:pipein_slow.progs', (0, 30), (0, 600), extra=['--max-steps', '30000']), prof('progs:pipein_profile_slow.progs', (0, 3), (0, 40), extra=['--max-steps', '30000'])],
         'monitors': ['C11', 'C01', 'C05'], 'liveness': True, 'panics': True,
-        'trusted_base': ['PipeIn model (coq/theories/PipeIn/Model.v): hand-written, the object abstracted as one-at-a-time FIFO execution (justified by C01/C02), tied by translator facts and the run-time oracles'],
-        'assumptions': ['the Desync object is abstracted as ObjExec (exclusive FIFO execution); a processing future that suspends is one step'],
+        'trusted_base': ['PipeIn model (coq/theories/PipeIn/Model.v): hand-written, the object abstracted as one-at-a-time FIFO execution (justified by C01/C02), tied by translator facts, by the replay of logged executions on the extracted model (driver/pipein, driver/pipe) and by the run-time oracles'],
+        'assumptions': ['the Desync object is abstracted as ObjExec (exclusive FIFO execution); the processing of an item may suspend once in the middle (JSusp); its self-wake is assumed delivered (that is C06)'],
     },
     'C12': {
         'correspondence': {'kind': 'pipe', 'profiles': [prof('pipe', (40, 5), (400, 10)), prof('progs:pipe_extra.progs', (0, 4), (0, 30)), prof('progs:pipe_yield.progs', (0, 8), (0, 60)), prof('progs:pipe_lastowner.progs', (0, 8), (0, 60))]},
         'coq': ['theories/Pipe/PropsC12.vo', 'theories/Inst/C12_now.vo', 'theories/Inst/Fut_now.vo'],
         'profiles': [prof('pipe', (80, 20), (1500, 60), extra=['--max-steps', '30000']), prof('progs:pipe_yield.progs', (0, 60), (0, 1500), extra=['--max-steps', '30000'])],
         'monitors': ['C12', 'C01', 'C05'], 'liveness': True, 'panics': True,
-        'trusted_base': ['Pipe model (coq/theories/Pipe/Model.v): hand-written, the object abstracted as one-at-a-time FIFO execution (justified by C01/C02), tied by translator facts and the run-time oracles'],
-        'assumptions': ['the Desync object is abstracted as ObjExec; the processing future is one step; depth 0 is excluded (it wedges the pipe by design of the code: nothing is read while pending.len() >= 0)'],
+        'trusted_base': ['Pipe model (coq/theories/Pipe/Model.v): hand-written, the object abstracted as one-at-a-time FIFO execution (justified by C01/C02), tied by translator facts, by the replay of logged executions on the extracted model (driver/pipein, driver/pipe) and by the run-time oracles'],
+        'assumptions': ['the Desync object is abstracted as ObjExec; the processing of an item may suspend once in the middle (init_slow); depth 0 is excluded (it wedges the pipe by design of the code: nothing is read while pending.len() >= 0)'],
     },
     'C16': {
         'correspondence': {'kind': 'pipe', 'profiles': [prof('pipedrop', (40, 5), (400, 10)), prof('progs:pipe_extra.progs', (0, 4), (0, 30)), prof('progs:pipe_yield.progs', (0, 8), (0, 60)), prof('progs:pipe_lastowner.progs', (0, 8), (0, 60))]},
@@ -131,7 +131,7 @@ PROPS = {
         'profiles': [prof('drop', (60, 15), (1500, 60)), prof('sync', (40, 10), (800, 40)), prof('fsync', (100, 20), (1500, 60)), prof('progs:cancel.progs', (0, 400), (0, 6000)), prof('pipedrop', (30, 10), (400, 40), extra=['--max-steps', '30000']), prof('progs:fut_extra.progs', (0, 60), (0, 1500)), prof('drop', (40, 2), (500, 4), real='asan'), prof('fsync', (30, 2), (400, 4), real='asan'), prof('fut', (30, 2), (400, 4), real='asan')],
         'monitors': ['C14', 'C05', 'C01', 'C08', 'C02'], 'liveness': False, 'panics': True,
         'trusted_base': L1_TRUST + ['memory as ghost state: the model speaks about WHEN closures, values and job storage are used, not about Rust-level aliasing or layout'],
-        'assumptions': ['PARTIAL BY NATURE: proves the lifetime protocol the unsafe sites rely on (erased sync jobs never outlive their call, closures run at most once, nothing runs after the free operation); absence of undefined behaviour outside the protocol is not provable here; the same programs also run on REAL threads under AddressSanitizer (nightly toolchain; a use of the value, a job or a captured borrow after its release aborts with a report; OS scheduling, so this samples interleavings and is evidence, not proof); canary payloads (dead flag, drop counter, wrong-object check, concurrent-modification canary) are checked in every profile; no AddressSanitizer build is part of the check'],
+        'assumptions': ['PARTIAL BY NATURE: proves the lifetime protocol the unsafe sites rely on (erased sync jobs never outlive their call, closures run at most once, nothing runs after the free operation); absence of undefined behaviour outside the protocol is not provable here; the same programs also run on REAL threads under AddressSanitizer (nightly toolchain; a use of the value, a job or a captured borrow after its release aborts with a report; OS scheduling, so this samples interleavings and is evidence, not proof); canary payloads (dead flag, drop counter, wrong-object check, concurrent-modification canary) are checked in every profile; '],
     },
     'C15': {
         'coq': ['theories/Props/C15.vo', 'theories/Inst/C15_now.vo', 'theories/Inst/Wrapper_now.vo'],
